@@ -15,12 +15,22 @@
 unsigned long long nondet_ull(void);
 unsigned long long verif_in[256];
 unsigned verif_nin;
+#ifdef VERIF_FIXED
+/* loop-bound profiling runs: the same harness on one concrete input vector (decides nothing) */
+static const unsigned long long verif_fixed[] = { VERIF_FIXED, 0 };
+static inline unsigned long long verif_draw(unsigned long long lo, unsigned long long hi) {
+  unsigned long long v = verif_fixed[verif_nin];
+  verif_in[verif_nin++] = v;
+  return v;
+}
+#else
 static inline unsigned long long verif_draw(unsigned long long lo, unsigned long long hi) {
   unsigned long long v = nondet_ull();
   __CPROVER_assume(v >= lo && v <= hi);
   verif_in[verif_nin++] = v;
   return v;
 }
+#endif
 #define IN(lo, hi) verif_draw((unsigned long long)(lo), (unsigned long long)(hi))
 #define ASSUME(c) __CPROVER_assume(c)
 #define ASSERT(c, msg) __CPROVER_assert((c), "PROP: " msg)
